@@ -314,6 +314,53 @@ func checkC15(c *Check) {
 				}
 			})
 		}
+		// operations that panic for some dynamic types: a value of interface type (the recovered value is
+		// `any` non-nil value) used as a map key (unhashable → "hash of unhashable type") or compared with
+		// == against another non-nil interface (uncomparable → "comparing uncomparable type")
+		for _, f := range fns {
+			dynamic := func(v ssa.Value) bool {
+				if _, isIface := v.Type().Underlying().(*types.Interface); !isIface {
+					return false
+				}
+				switch x := v.(type) {
+				case *ssa.Parameter, *ssa.FreeVar:
+					return true
+				case *ssa.Call:
+					return callName(&x.Call) == "builtin.recover"
+				case *ssa.UnOp:
+					_, isFV := x.X.(*ssa.FreeVar)
+					return isFV
+				}
+				return false
+			}
+			allInstrs(f, func(in ssa.Instruction) {
+				var key ssa.Value
+				switch x := in.(type) {
+				case *ssa.MapUpdate:
+					key = x.Key
+				case *ssa.Lookup:
+					if _, isMap := x.X.Type().Underlying().(*types.Map); isMap {
+						key = x.Index
+					}
+				case *ssa.BinOp:
+					if x.Op == token.EQL || x.Op == token.NEQ {
+						_, i1 := x.X.Type().Underlying().(*types.Interface)
+						_, i2 := x.Y.Type().Underlying().(*types.Interface)
+						if i1 && i2 && !vNil(x.X) && !vNil(x.Y) && (derivesFrom(x.X, dynamic, nil) || derivesFrom(x.Y, dynamic, nil)) {
+							bad++
+							c.Bad(p.FuncKey(f)+":compares-panic-value", p.Pos(in.Pos()), "the recovering code compares the recovered value with == : a panic value of an uncomparable dynamic type (slice, map, struct holding one) makes Recovery panic after recover()")
+						}
+					}
+				}
+				if key == nil {
+					return
+				}
+				if _, isIface := key.Type().Underlying().(*types.Interface); isIface && derivesFrom(key, dynamic, nil) {
+					bad++
+					c.Bad(p.FuncKey(f)+":hashes-panic-value", p.Pos(in.Pos()), "the recovering code uses a value of interface type as a map key: a panic value of an unhashable dynamic type (slice, map, func, struct holding one) raises \"hash of unhashable type\" after recover() and escapes ServeHTTP")
+				}
+			})
+		}
 		if bad == 0 {
 			c.OK(p.FuncKey(rec)+":total", p.FuncPos(rec), fmt.Sprintf("%d index sites in %d functions: all compiler-proven except %d of the form x[Index(x,…)+1:] on the found edge", len(sites), len(fns), nun), len(sites))
 		}
